@@ -21,6 +21,7 @@ package hessian
 import (
 	"bytes"
 	"io"
+	"math"
 	"reflect"
 	"unsafe"
 )
@@ -109,14 +110,24 @@ func (e *Encoder) WriteData(data interface{}) (int, error) {
 		return e.writeBoolean(v.Bool())
 	case reflect.String:
 		return e.writeString(v.String())
-	case reflect.Int8, reflect.Int16, reflect.Int32, reflect.Int: // as int
+	case reflect.Int8, reflect.Int16, reflect.Int32: // as int
 		return e.writeInt(int32(v.Int()))
+	case reflect.Int: // as int, which is 32 bits wide on the wire
+		i := v.Int()
+		if i < math.MinInt32 || i > math.MaxInt32 {
+			return 0, newCodecError("WriteData", "int value %d does not fit the 32-bit hessian int", i)
+		}
+		return e.writeInt(int32(i))
 	case reflect.Uint8, reflect.Uint16: // as int
 		return e.writeInt(int32(v.Uint()))
 	case reflect.Int64: // as long
 		return e.writeLong(v.Int())
 	case reflect.Uint, reflect.Uint32, reflect.Uint64: // as long
-		return e.writeLong(int64(v.Uint()))
+		u := v.Uint()
+		if u > math.MaxInt64 {
+			return 0, newCodecError("WriteData", "unsigned value %d does not fit the 64-bit hessian long", u)
+		}
+		return e.writeLong(int64(u))
 	case reflect.Float32, reflect.Float64:
 		return e.writeDouble(v.Float())
 	case reflect.Slice, reflect.Array:
